@@ -93,6 +93,28 @@ def pairsOf : List Nat → Option (List (Nat × Nat))
   | a :: b :: r => (pairsOf r).map ((a, b) :: ·)
   | _ => none
 
+/-- a glyph spec token: `eO` … (error), `n` (empty), `s<points>`, `c` + `flag:gid` pairs joined by `,` -/
+def parseGR (s : String) : Option GR :=
+  if s = "n" then some .none
+  else if s = "eO" then some (.err .oob)
+  else if s = "eN" then some (.err .nullOffset)
+  else if s = "eM" then some (.err .malformed)
+  else
+    match s.toList with
+    | 's' :: rest => (String.ofList rest).toNat?.map GR.simple
+    | 'c' :: rest =>
+      let body := String.ofList rest
+      if body = "" then some (.composite [])
+      else
+        (body.splitOn ",").mapM (fun (part : String) =>
+          match part.splitOn ":" with
+          | [f, g] =>
+            match f.toNat?, g.toNat? with
+            | some f, some g => if f ≤ 1 then some (decide (f = 1), g) else none
+            | _, _ => none
+          | _ => none) |>.map GR.composite
+    | _ => none
+
 def handle3 (cmd : String) (args : List String) : Option String :=
   match cmd, args with
   | "hv.dsim", hex :: idxs =>
@@ -183,6 +205,22 @@ def handle3 (cmd : String) (args : List String) : Option String :=
                     | .trap => some "trap"
                     | .ok (x, y, fl) => some s!"ok {dig x} {dig y} {fnv (fl.map (fun b => if b then 1 else 0))}"
     | _, _, _, _, _, _ => none
+  | "hv.phantom", gid :: hex :: dflt :: rest =>
+    -- `<gid> <gvar hex> <spec of every glyph id beyond the list> <n> <spec 0> … <spec n-1> <coords…>`
+    match gid.toNat?, parseHex? hex, parseGR dflt, takeCounted rest with
+    | some gid, some d, some dflt, some (specs, coords) =>
+      match specs.mapM parseGR, parseInts? coords with
+      | some specs, some cs =>
+        match gvarRead d with
+        | none => some "eO"
+        | some g =>
+          match g.phantomPointDeltas (fun i => specs.getD i dflt) cs gid with
+          | .err e => some (errStr e)
+          | .trap => some "trap"
+          | .ok none => some "none"
+          | .ok (some ph) => some (" ".intercalate (ph.map (fun (p : Int × Int) => s!"{p.1},{p.2}")))
+      | _, _ => none
+    | _, _, _, _ => none
   | "hv.avar", hex :: coords =>
     match parseHex? hex, parseInts? coords with
     | some d, some cs => some (joinStrs (cs.map (fun c => rIntStr (segmentMapsApply d c))))
